@@ -245,7 +245,7 @@ func wrapRecoverTuple(rng *gen.Rng) sigTuple {
 func runC07(r *mon.Run) {
 	for _, c := range []string{"c07:accept", "c07:reject", "c07:class:high-s", "c07:class:chosen-R:x(R)>=n", "c07:class:chosen-R:x(R)<p-n", "c07:class:R=infinity",
 		"c07:class:e=0", "c07:class:rs-boundary-value", "c07:class:digest-extended", "c07:stage:range", "c07:stage:infinity", "c07:stage:x-compare",
-		"c07:stage:short-digest", "c07:stage:malleability", "c07:recoverable:accept", "c07:recoverable:wrong-id", "c07:recoverable:malleability-reject", "c07:class:tiny-s", "c07:class:steered-u2", "c07:class:wrap-recover", "c07:alias:s+n", "c07:alias:r+n", "c07:btc:accept", "c07:btc:envelope-reject"} {
+		"c07:stage:short-digest", "c07:stage:malleability", "c07:recoverable:accept", "c07:recoverable:wrong-id", "c07:recoverable:malleability-reject", "c07:class:tiny-s", "c07:short-hash-option", "c07:class:steered-u2", "c07:class:wrap-recover", "c07:alias:s+n", "c07:alias:r+n", "c07:btc:accept", "c07:btc:envelope-reject"} {
 		r.Require(c)
 	}
 	if !hk.HaveSecec {
@@ -347,6 +347,42 @@ func runC07(r *mon.Run) {
 				if g := pub.Verify(t.Digest, compact, opts); g != base {
 					fail("Verify/Compact", fmt.Sprintf("Verify(compact, hash=%v, rejectMalleable=%v)", h, rejectMall), g, base)
 				}
+			}
+		}
+		// a hash SHORTER than 32 bytes selected in the options, a digest of exactly that
+		// length, and a signature that is valid for the digest zero-extended to 32 bytes:
+		// "digests under 32 bytes are always rejected", whatever the options say
+		if i%5 == 0 && t.D != nil {
+			h := gen.Pick(rng, crypto.SHA224, crypto.SHA1, crypto.MD5, crypto.RIPEMD160, crypto.SHA512_224)
+			short := rng.Bytes(h.Size())
+			padded := append(append([]byte{}, short...), make([]byte, 32-len(short))...)
+			e, _ := oracle.DigestToE(padded)
+			for {
+				k := rng.Below(bigN)
+				rr, ss, v, ok := oracle.ECDSASignWithK(t.D, e, k)
+				if !ok {
+					continue
+				}
+				ss, v = oracle.LowS(ss, v)
+				w.Class("c07:short-hash-option")
+				for _, enc := range []secec.SignatureEncoding{secec.EncodingASN1, secec.EncodingCompact, secec.EncodingCompactRecoverable} {
+					var sig []byte
+					switch enc {
+					case secec.EncodingASN1:
+						sig = oracle.DERWriteSig(rr, ss)
+					case secec.EncodingCompact:
+						sig = append(b32(rr), b32(ss)...)
+					default:
+						sig = append(append(b32(rr), b32(ss)...), byte(v))
+					}
+					if g := mustPub(oracle.MulG(t.D)).Verify(short, sig, &secec.ECDSAOptions{Hash: h, Encoding: enc}); g {
+						w.Fail("c07/Verify/short-hash", fmt.Sprintf("Verify accepted a %d-byte digest (options select %v, encoding %d); the signature is valid for the digest zero-extended to 32 bytes", len(short), h, enc), "d", hb(t.D), "digest", hx(short), "r", hb(rr), "s", hb(ss))
+					}
+				}
+				if g := mustPub(oracle.MulG(t.D)).VerifyRaw(short, scalarFromBig(rr), scalarFromBig(ss)); g {
+					w.Fail("c07/VerifyRaw/short-hash", "VerifyRaw accepted a digest shorter than 32 bytes", "digest", hx(short))
+				}
+				break
 			}
 		}
 		// nil options: ASN.1, any digest length >= 32, any s
